@@ -54,7 +54,10 @@ def case_(draw, tier):
             "phi": draw(st.floats(0, 2 * math.pi)), "fs": draw(st.sampled_from([1.0, 2.0, 1000.0, 0.3])),
             "backend": draw(st.sampled_from(["numba", "numba", "numpy"])),
             "win": draw(st.sampled_from(["kaiser", "np.kaiser", "sp.kaiser"])), "olap": draw(st.sampled_from(["default", 0.0, 0.5])),
-            "fres_jitter": draw(st.sampled_from([0.0, 0.0, 0.3, -0.4, 0.45]))}
+            "fres_jitter": draw(st.sampled_from([0.0, 0.0, 0.3, -0.4, 0.45])),
+            # an unrelated analyzer (other window/psll/order) is created and used after the two under test were built
+            "decoy": draw(st.sampled_from([None, None, {"psll": 40, "win": "kaiser", "order": 2}, {"psll": 60, "win": "hann", "order": 0},
+                                           {"psll": 90, "win": "kaiser", "order": -1, "wrapper": True}]))}
 
 
 def oracle(case):
@@ -71,6 +74,14 @@ def oracle(case):
     kw = dict(order=order, psll=P, win=win, olap=case["olap"], backend=case["backend"])
     anq = SpectrumAnalyzer(np.vstack([xc, xs]), fs, **kw)
     anr = SpectrumAnalyzer(xs, fs, **kw)
+    if case.get("decoy"):
+        dk = case["decoy"]
+        if dk.get("wrapper"):
+            import speckit
+            speckit.compute_single_bin(xc[:max(64, N // 2)], 2.0 * fs, 0.1 * fs, L=64, psll=dk["psll"], win=dk["win"], order=dk["order"])
+        else:
+            other = SpectrumAnalyzer(xc[:max(64, N // 2)], 2.0 * fs, psll=dk["psll"], win=dk["win"], order=dk["order"], Jdes=10, Kdes=4)
+            other.compute_single_bin(0.1 * fs, L=64)
     w = refs.kaiser_window(L, P)
     W0 = float(np.sum(w))
     nn = np.arange(L)
